@@ -118,18 +118,24 @@ template <class S> void sequences(vf::Ctx& c, const char* tname, int depth, int 
   using Vec = typename Problem<S>::Vec;
   std::vector<Op> ops;
   for (int p = 1; p <= 3; ++p) for (int ns = 0; ns < 3; ++ns) for (int s = 0; s < 3; ++s) for (int pr = 0; pr < 3; ++pr) ops.push_back({p, ns, s, pr});
-  const int NOPS = (int)ops.size();
+  const int NPROB = (int)ops.size();
+  const int NOPS = NPROB + 2;   // + "other = solver; continue with other" (other has a past of its own), "continue with a copy-constructed solver"
   long double eps = std::numeric_limits<S>::epsilon();
   uint64_t total = 1; for (int i = 1; i < depth; ++i) total *= NOPS;
   std::set<uint64_t> states;
   std::vector<int> seq(depth); seq[0] = firstOp;
+  LeastSquares<S> usedSolver(2);   // a solver with a past of its own (another estimate size, a preconditioner, a solved problem): the target of the assignment operation
+  { Problem<S> Q = make_problem<S>(8, 2, 3, 1, 1, 0, 0, 7); usedSolver.setDataSize(8); load(usedSolver, Q, false); Vec A2(2); A2 << (S)2, (S)0.5; typename Problem<S>::Mat Am = A2.asDiagonal(); usedSolver.setPreconditionner(Am, A2); solve(usedSolver, Q, 1); }
   for (uint64_t k = 0; k < total; ++k) {
     uint64_t r = k; for (int i = 1; i < depth; ++i) { seq[i] = r % NOPS; r /= NOPS; }
-    LeastSquares<S> ls(ops[seq[0]].p);
+    std::unique_ptr<LeastSquares<S>> cur(new LeastSquares<S>(ops[seq[0]].p)), other(new LeastSquares<S>(usedSolver));
+#define ls (*cur)
     int curP = ops[seq[0]].p;
     // model of the configured preconditioner: identity / zero after construction and after setEstimateSize
     Vec mA = Vec::Ones(curP), mb = Vec::Zero(curP);
     for (int i = 0; i < depth; ++i) {
+      if (seq[i] == NPROB) { c.transitions(); *other = *cur; std::swap(cur, other); continue; }
+      if (seq[i] == NPROB + 1) { c.transitions(); std::unique_ptr<LeastSquares<S>> cp(new LeastSquares<S>(*cur)); other = std::move(cur); cur = std::move(cp); continue; }
       const Op& o = ops[seq[i]];
       int n = o.nsel == 0 ? o.p : o.nsel == 1 ? o.p + 2 : 8;
       Problem<S> P = make_problem<S>(n, o.p, 3, 1, 1, o.solver == 2 ? 1 : 0, 0, i + 1);
@@ -140,7 +146,7 @@ template <class S> void sequences(vf::Ctx& c, const char* tname, int depth, int 
         if (o.prec == 1) { ls.setPreconditionner(Am, b); mA = A; mb = b; } else { ls.setPreconditionner(Am); mA = A; mb = Vec::Zero(o.p); }
       }
       c.transitions(); c.eval(); if (i) c.nontrivial();
-      auto params = [&]() { std::vector<std::string> h; for (int j = 0; j <= i; ++j) { const Op& q = ops[seq[j]]; char b[128]; snprintf(b, 128, "problem(p=%d,n=%d,%s,%s)", q.p, q.nsel == 0 ? q.p : q.nsel == 1 ? q.p + 2 : 8, q.solver == 0 ? "Cholesky" : q.solver == 1 ? "SVD" : "weighted", q.prec == 0 ? "preconditioner kept" : q.prec == 1 ? "setPreconditionner(A,b)" : "setPreconditionner(A)"); h.push_back(b); } return vf::JO().str("type", tname).strs("history", h).done(); };
+      auto params = [&]() { std::vector<std::string> h; for (int j = 0; j <= i; ++j) { if (seq[j] >= NPROB) { h.push_back(seq[j] == NPROB ? "other = solver; continue with other" : "continue with a copy-constructed solver"); continue; } const Op& q = ops[seq[j]]; char b[128]; snprintf(b, 128, "problem(p=%d,n=%d,%s,%s)", q.p, q.nsel == 0 ? q.p : q.nsel == 1 ? q.p + 2 : 8, q.solver == 0 ? "Cholesky" : q.solver == 1 ? "SVD" : "weighted", q.prec == 0 ? "preconditioner kept" : q.prec == 1 ? "setPreconditionner(A,b)" : "setPreconditionner(A)"); h.push_back(b); } return vf::JO().str("type", tname).strs("history", h).done(); };
       // the design matrix the solver exposes must be able to hold the problem once the data size is set
       ls.setDataSize(n);
       if (ls.getJ().cols() < o.p || ls.getJ().rows() < n || ls.getY().rows() < n || ls.getW().rows() < n) {
@@ -160,6 +166,7 @@ template <class S> void sequences(vf::Ctx& c, const char* tname, int depth, int 
       if (!(d <= tol)) { c.violation("LeastSquares.dependsOnHistory", params(), vf::JO().num("difference_vs_fresh", d).num("tol", tol).done()); break; }
       uint64_t h = 5; h = vf::mix64(h, ls.getJ().rows()); h = vf::mix64(h, ls.getJ().cols()); h = vf::mix64(h, o.p); h = vf::mix64(h, o.prec); states.insert(h);
     }
+#undef ls
     c.traces();
     if (c.want_sample() && k == total / 2) c.sample(vf::JO().str("type", tname).vec("op_indexes", seq).done());
     if (c.c.violations > 30) return;
@@ -181,7 +188,7 @@ std::string vf_describe(const std::string& tier) {
   vf::JO o;
   o.str("L", "estimate size 1..8 x data size {p,p+1,2p,50,500} x kappa {1,1e2,3e2,1e4,1e6} x magnitude {2^-27,2^-10,1,2^10} (float {2^-13,2^-6,1,2^6}) x Y {consistent, inconsistent, strongly inconsistent} x weights {none, alternating 1/4..4, one zero, one huge} x preconditioner {none, diagonal, diagonal+offset, identity+offset}; cases with 8 p kappa^2 eps > 0.5 are skipped (no digits in the normal equations)");
   o.str("L_oracle", "Householder-QR solution in long double; |x - x_ref| <= 8 p eps kappa^2 (|x|+|Y|/smax); normal-equation residual; Cholesky vs SVD path");
-  o.i("S_depth", tier == "thorough" ? 4 : 3).str("S_ops", "problem(p in 1..3 (setEstimateSize when it changes), n in {p,p+2,8}, solver in {Cholesky, SVD, weighted}, preconditioner {kept, setPreconditionner(A,b), setPreconditionner(A)}) = 81 operations; the model tracks the configured preconditioner; buffers NaN-poisoned before each problem; result vs fresh solver within 256*9 eps");
+  o.i("S_depth", tier == "thorough" ? 4 : 3).str("S_ops", "problem(p in 1..3 (setEstimateSize when it changes), n in {p,p+2,8}, solver in {Cholesky, SVD, weighted}, preconditioner {kept, setPreconditionner(A,b), setPreconditionner(A)}) = 81 operations, plus (after the first) 'assign the solver to another long-lived solver and continue with that one' and 'continue with a copy-constructed solver'; the model tracks the configured preconditioner; buffers NaN-poisoned before each problem; result vs fresh solver within 256*9 eps");
   return o.done();
 }
 
